@@ -29,7 +29,7 @@ fn party(r: &Runner, name: &str) -> String {
         "vault".into()
     } else if name == r.w.addrs.insurance_fund {
         "insurance_fund".into()
-    } else if name == r.w.addrs.fee_pool {
+    } else if name == r.w.addrs.fee_pool || r.obs.eng.as_ref().map(|e| e.fee_pool == name).unwrap_or(false) {
         "fee_pool".into()
     } else if r.w.addrs.cw20.as_deref() == Some(name) {
         "token".into()
